@@ -475,8 +475,503 @@ static int sch_mklhs(sess_t *s) {
 	return 0;
 }
 
+
+/*============================================================================*/
+/* C06: encryption, agreement, sharing, delegation                            */
+/*============================================================================*/
+
+/* ---- generalised Paillier with an aggregator: opt[4] senders, opt[6] = s in 1..3 ---- */
+static int sch_ghpe(sess_t *s) {
+	int k = (int)s->opt[4];
+	size_t sp = (size_t)(1 + (s->opt[6] % 3));
+	if (k < 1) k = 1;
+	if (k > 4) k = 4;
+	if (s->phase == 0) {
+		int rc = cp_ghpe_gen(s->b[22], s->b[23], 256);
+		log_rc(s, "gen", rc);
+		tr_printf("KEY %d ghpe", s->sid); log_bn_kv("n", s->b[22]); tr_printf(" s=%zu\n", sp);
+		return rc == RLC_OK;
+	}
+	if (s->phase <= k) {
+		int i = s->phase - 1;
+		/* plaintexts in Z_{n^s} */
+		bn_copy(s->b[21], s->b[22]);
+		for (size_t j = 1; j < sp; j++) { bn_mul(s->b[21], s->b[21], s->b[22]); }
+		bn_rand_mod(s->b[i], s->b[21]);
+		if (s->opt[5] == 1) bn_sub_dig(s->b[i], s->b[21], 1 + (dig_t)i);
+		if (s->opt[5] == 2) bn_set_dig(s->b[i], (dig_t)i);
+		log_rc(s, "enc", cp_ghpe_enc(s->b[4 + i], s->b[i], s->b[22], sp));
+		tr_printf("OUT %d pt%d", s->sid, i); log_bn_kv("v", s->b[i]); tr_str("\n");
+		return 1;
+	}
+	if (s->phase == k + 1) {
+		char name[8];
+		int n = 0;
+		/* modulus n^(s+1) */
+		bn_copy(s->b[21], s->b[22]);
+		for (size_t j = 0; j < sp; j++) { bn_mul(s->b[21], s->b[21], s->b[22]); }
+		for (int i = 0; i < k; i++) {
+			snprintf(name, sizeof(name), "c%d", i);
+			fault_t *f = find_fault(s, name);
+			int copies = 1;
+			if (f && !strcmp(f->kind, "drop")) copies = 0;
+			if (f && !strcmp(f->kind, "dup")) copies = 2;
+			tr_printf("DELIVER %d %s copies=%d\n", s->sid, name, copies);
+			for (int c = 0; c < copies; c++) {
+				if (n == 0) bn_copy(s->b[20], s->b[4 + i]);
+				else { bn_mul(s->b[20], s->b[20], s->b[4 + i]); bn_mod(s->b[20], s->b[20], s->b[21]); }
+				n++;
+			}
+		}
+		s->flag[0] = n;
+		return 1;
+	}
+	if (s->phase == k + 2) {
+		if (s->flag[0] > 0) {
+			int rc = cp_ghpe_dec(s->b[19], s->b[20], s->b[22], s->b[23], sp);
+			log_rc(s, "dec", rc);
+			if (rc == RLC_OK) log_out_bn(s, "sum", s->b[19]);
+		}
+		return 0;
+	}
+	return 0;
+}
+
+/* ---- Benaloh with an aggregator ---- */
+static bdpe_t bd_pub[NSESS], bd_prv[NSESS];
+static rabin_t rb_pub[NSESS], rb_prv[NSESS];
+static bgn_t bg_pub[NSESS], bg_prv[NSESS];
+static sokaka_t sk_a[NSESS], sk_b[NSESS];
+static mt_t mt_tri[NSESS][2];
+static int c06_ready = 0;
+static void c06_init(void) {
+	if (c06_ready) return;
+	for (int i = 0; i < NSESS; i++) {
+		bdpe_null(bd_pub[i]); bdpe_null(bd_prv[i]); bdpe_new(bd_pub[i]); bdpe_new(bd_prv[i]);
+		rabin_null(rb_pub[i]); rabin_null(rb_prv[i]); rabin_new(rb_pub[i]); rabin_new(rb_prv[i]);
+		bgn_null(bg_pub[i]); bgn_null(bg_prv[i]); bgn_new(bg_pub[i]); bgn_new(bg_prv[i]);
+		sokaka_null(sk_a[i]); sokaka_null(sk_b[i]); sokaka_new(sk_a[i]); sokaka_new(sk_b[i]);
+		mt_null(mt_tri[i][0]); mt_null(mt_tri[i][1]); mt_new(mt_tri[i][0]); mt_new(mt_tri[i][1]);
+	}
+	c06_ready = 1;
+}
+
+static int sch_bdpe(sess_t *s) {
+	int k = (int)s->opt[4];
+	const dig_t prime = 0xFB;
+	if (k < 1) k = 1;
+	if (k > 4) k = 4;
+	c06_init();
+	if (s->phase == 0) {
+		int rc = cp_bdpe_gen(bd_pub[s->sid], bd_prv[s->sid], prime, 512);
+		log_rc(s, "gen", rc);
+		return rc == RLC_OK;
+	}
+	if (s->phase <= k) {
+		int i = s->phase - 1;
+		dig_t in = (dig_t)(s->msg_len > (size_t)i ? s->msg[i] : 7 * i) % prime;
+		if (s->opt[5] == 1) in = prime - 1 - (dig_t)i;
+		s->blen[i] = BUFSZ;
+		log_rc(s, "enc", cp_bdpe_enc(s->buf[i], &s->blen[i], in, bd_pub[s->sid]));
+		tr_printf("OUT %d pt%d v=%02x\n", s->sid, i, (unsigned)in);
+		return 1;
+	}
+	if (s->phase == k + 1) {
+		char name[8];
+		int n = 0;
+		for (int i = 0; i < k; i++) {
+			snprintf(name, sizeof(name), "c%d", i);
+			fault_t *f = find_fault(s, name);
+			int copies = 1;
+			if (f && !strcmp(f->kind, "drop")) copies = 0;
+			if (f && !strcmp(f->kind, "dup")) copies = 2;
+			tr_printf("DELIVER %d %s copies=%d\n", s->sid, name, copies);
+			bn_read_bin(s->b[1], s->buf[i], s->blen[i]);
+			for (int c = 0; c < copies; c++) {
+				if (n == 0) bn_copy(s->b[0], s->b[1]);
+				else { bn_mul(s->b[0], s->b[0], s->b[1]); bn_mod(s->b[0], s->b[0], bd_pub[s->sid]->n); }
+				n++;
+			}
+		}
+		s->flag[0] = n;
+		return 1;
+	}
+	if (s->phase == k + 2) {
+		if (s->flag[0] > 0) {
+			dig_t out = 0;
+			size_t l = bn_size_bin(bd_pub[s->sid]->n);
+			bn_write_bin(s->buf[5], l, s->b[0]);
+			int rc = cp_bdpe_dec(&out, s->buf[5], l, bd_prv[s->sid]);
+			log_rc(s, "dec", rc);
+			if (rc == RLC_OK) tr_printf("OUT %d sum v=%02x\n", s->sid, (unsigned)out);
+		}
+		return 0;
+	}
+	return 0;
+}
+
+/* ---- Rabin ---- */
+static int sch_rabin(sess_t *s) {
+	c06_init();
+	switch (s->phase) {
+		case 0: { int rc = cp_rabin_gen(rb_pub[s->sid], rb_prv[s->sid], 768); log_rc(s, "gen", rc); return rc == RLC_OK; }
+		case 1: {
+			s->blen[0] = BUFSZ;
+			int rc = cp_rabin_enc(s->buf[0], &s->blen[0], s->msg, s->msg_len, rb_pub[s->sid]);
+			log_rc(s, "enc", rc);
+			(void)err_get_code();
+			s->flag[0] = rc == RLC_OK;
+			return 1;
+		}
+		case 2:
+			if (s->flag[0]) s->blen[1] = xmit_bytes(s, "ct", s->buf[1], s->buf[0], s->blen[0]);
+			return 1;
+		case 3:
+			if (s->flag[0]) {
+				s->blen[2] = BUFSZ;
+				uint8_t *ct = (uint8_t *)malloc(s->blen[1] ? s->blen[1] : 1);
+				memcpy(ct, s->buf[1], s->blen[1]);
+				int rc = cp_rabin_dec(s->buf[2], &s->blen[2], ct, s->blen[1], rb_prv[s->sid]);
+				free(ct);
+				if (err_get_code() != RLC_OK) rc = RLC_ERR;
+				log_rc(s, "dec", rc);
+				if (rc == RLC_OK) log_out(s, "pt", s->buf[2], s->blen[2]);
+			}
+			return 0;
+	}
+	return 0;
+}
+
+/* ---- Boneh-Franklin IBE: opt[6] & 1 = the receiver holds the key of another identity ---- */
+static int sch_ibe(sess_t *s) {
+	switch (s->phase) {
+		case 0: log_rc(s, "gen", cp_ibe_gen(s->b[0], s->g1[0])); return 1;
+		case 1: log_rc(s, "genprv", cp_ibe_gen_prv(s->g2[0], (s->opt[6] & 1) ? "mallory" : "bob", s->b[0])); return 1;
+		case 2:
+			s->flag[0] = xmit_g1(s, "pub", s->g1[5], s->g1[0], (int)s->opt[1]) & xmit_g2(s, "prv", s->g2[5], s->g2[0], (int)s->opt[1]);
+			return 1;
+		case 3:
+			if (s->flag[0]) {
+				s->blen[0] = BUFSZ;
+				int rc = cp_ibe_enc(s->buf[0], &s->blen[0], s->msg, s->msg_len, "bob", s->g1[5]);
+				log_rc(s, "enc", rc);
+				s->flag[1] = rc == RLC_OK && err_get_code() == RLC_OK;
+			}
+			return 1;
+		case 4:
+			if (s->flag[0] && s->flag[1]) s->blen[1] = xmit_bytes(s, "ct", s->buf[1], s->buf[0], s->blen[0]);
+			return 1;
+		case 5:
+			if (s->flag[0] && s->flag[1]) {
+				s->blen[2] = BUFSZ;
+				uint8_t *ct = (uint8_t *)malloc(s->blen[1] ? s->blen[1] : 1);
+				memcpy(ct, s->buf[1], s->blen[1]);
+				int rc = cp_ibe_dec(s->buf[2], &s->blen[2], ct, s->blen[1], s->g2[5]);
+				free(ct);
+				if (err_get_code() != RLC_OK) rc = RLC_ERR;
+				log_rc(s, "dec", rc);
+				if (rc == RLC_OK) log_out(s, "pt", s->buf[2], s->blen[2]);
+			}
+			return 0;
+	}
+	return 0;
+}
+
+/* ---- BGN: two small plaintexts, additions in G1/G2 and one multiplication into GT ---- */
+static int sch_bgn(sess_t *s) {
+	c06_init();
+	dig_t m1 = (dig_t)(s->opt[7] % 11), m2 = (dig_t)((s->opt[7] / 11) % 11), m3 = (dig_t)((s->opt[7] / 121) % 7);
+	switch (s->phase) {
+		case 0: log_rc(s, "gen", cp_bgn_gen(bg_pub[s->sid], bg_prv[s->sid])); return 1;
+		case 1:
+			/* c1 = Enc1(m1) + Enc1(m3) in g1[0..1]; c2 = Enc2(m2) in g2[0..1] */
+			log_rc(s, "enc1", cp_bgn_enc1(s->g1, m1, bg_pub[s->sid]));
+			log_rc(s, "enc1", cp_bgn_enc1(s->g1 + 2, m3, bg_pub[s->sid]));
+			log_rc(s, "enc2", cp_bgn_enc2(s->g2, m2, bg_pub[s->sid]));
+			tr_printf("OUT %d m v=%02x%02x%02x\n", s->sid, (unsigned)m1, (unsigned)m2, (unsigned)m3);
+			return 1;
+		case 2: {
+			int ok = 1;
+			/* ciphertext components travel to the evaluator */
+			ok &= xmit_g1(s, "c10", s->g1[5], s->g1[0], (int)s->opt[1]);
+			ok &= xmit_g1(s, "c11", s->g1[6], s->g1[1], (int)s->opt[1]);
+			ok &= xmit_g1(s, "c30", s->g1[7], s->g1[2], (int)s->opt[1]);
+			ok &= xmit_g1(s, "c31", s->g1[8], s->g1[3], (int)s->opt[1]);
+			ok &= xmit_g2(s, "c20", s->g2[5], s->g2[0], (int)s->opt[1]);
+			ok &= xmit_g2(s, "c21", s->g2[6], s->g2[1], (int)s->opt[1]);
+			s->flag[0] = ok;
+			return 1;
+		}
+		case 3:
+			if (s->flag[0]) {
+				dig_t o = 0;
+				g1_add(s->g1[5], s->g1[5], s->g1[7]); g1_norm(s->g1[5], s->g1[5]);
+				g1_add(s->g1[6], s->g1[6], s->g1[8]); g1_norm(s->g1[6], s->g1[6]);
+				int rc = cp_bgn_dec1(&o, (const g1_t *)(s->g1 + 5), bg_prv[s->sid]);
+				log_rc(s, "dec1", rc);
+				if (rc == RLC_OK) tr_printf("OUT %d sum1 v=%02x\n", s->sid, (unsigned)o);
+				rc = cp_bgn_mul(s->gt, (const g1_t *)(s->g1 + 5), (const g2_t *)(s->g2 + 5));
+				log_rc(s, "mul", rc);
+				if (rc == RLC_OK) {
+					rc = cp_bgn_dec(&o, (const gt_t *)s->gt, bg_prv[s->sid]);
+					log_rc(s, "dec", rc);
+					if (rc == RLC_OK) tr_printf("OUT %d prod v=%02x\n", s->sid, (unsigned)o);
+				}
+			}
+			return 0;
+	}
+	return 0;
+}
+
+/* ---- SOK non-interactive key agreement ---- */
+static int sch_sokaka(sess_t *s) {
+	c06_init();
+	switch (s->phase) {
+		case 0: log_rc(s, "gen", cp_sokaka_gen(s->b[0])); return 1;
+		case 1: log_rc(s, "prvA", cp_sokaka_gen_prv(sk_a[s->sid], "alice", s->b[0])); return 1;
+		case 2: log_rc(s, "prvB", cp_sokaka_gen_prv(sk_b[s->sid], (s->opt[6] & 1) ? "carol" : "bob", s->b[0])); return 1;
+		case 3: {
+			int rc = cp_sokaka_key(s->buf[0], (size_t)s->opt[3], "alice", sk_a[s->sid], "bob");
+			log_rc(s, "keyA", rc);
+			if (rc == RLC_OK) log_out(s, "keyA", s->buf[0], (size_t)s->opt[3]);
+			return 1;
+		}
+		case 4: {
+			int rc = cp_sokaka_key(s->buf[1], (size_t)s->opt[3], "bob", sk_b[s->sid], "alice");
+			log_rc(s, "keyB", rc);
+			if (rc == RLC_OK) log_out(s, "keyB", s->buf[1], (size_t)s->opt[3]);
+			return 0;
+		}
+	}
+	return 0;
+}
+
+/* ---- Beaver multiplication between two parties with an explicit broadcast round ---- */
+static int sch_mt(sess_t *s) {
+	c06_init();
+	mt_t *tri = mt_tri[s->sid];
+	switch (s->phase) {
+		case 0:
+			mpc_mt_gen(tri, ord);
+			/* secret inputs x, y and their additive shares: x = b[0] + b[1], y = b[2] + b[3] */
+			for (int i = 0; i < 4; i++) { bn_rand_mod(s->b[i], ord); }
+			if (s->opt[6] == 1) { bn_zero(s->b[0]); bn_zero(s->b[1]); }
+			bn_add(s->b[20], s->b[0], s->b[1]); bn_mod(s->b[20], s->b[20], ord);
+			bn_add(s->b[21], s->b[2], s->b[3]); bn_mod(s->b[21], s->b[21], ord);
+			log_out_bn(s, "x", s->b[20]); log_out_bn(s, "y", s->b[21]);
+			return 1;
+		case 1: mpc_mt_lcl(s->b[4], s->b[6], s->b[0], s->b[2], ord, tri[0]); return 1;		/* party 0: d0 b[4], e0 b[6] */
+		case 2: mpc_mt_lcl(s->b[5], s->b[7], s->b[1], s->b[3], ord, tri[1]); return 1;		/* party 1: d1 b[5], e1 b[7] */
+		case 3: {
+			/* broadcast: each party receives the other's (d, e); party 0's view b[8..11], party 1's b[12..15] */
+			int ok = 1;
+			bn_copy(s->b[8], s->b[4]); bn_copy(s->b[10], s->b[6]);
+			ok &= xmit_bn(s, "d1", s->b[9], s->b[5], 0); ok &= xmit_bn(s, "e1", s->b[11], s->b[7], 0);
+			bn_copy(s->b[13], s->b[5]); bn_copy(s->b[15], s->b[7]);
+			ok &= xmit_bn(s, "d0", s->b[12], s->b[4], 0); ok &= xmit_bn(s, "e0", s->b[14], s->b[6], 0);
+			s->flag[0] = ok;
+			return 1;
+		}
+		case 4:
+			if (s->flag[0]) {
+				mpc_mt_bct(s->b + 8, s->b + 10, ord);
+				mpc_mt_mul(s->b[16], s->b[8], s->b[10], ord, tri[0], 0);
+				log_out_bn(s, "r0", s->b[16]);
+			}
+			return 1;
+		case 5:
+			if (s->flag[0]) {
+				mpc_mt_bct(s->b + 12, s->b + 14, ord);
+				mpc_mt_mul(s->b[17], s->b[12], s->b[14], ord, tri[1], 1);
+				log_out_bn(s, "r1", s->b[17]);
+			}
+			return 0;
+	}
+	return 0;
+}
+
+/* ---- delegated pairing with public inputs: pdpub / lvpub; the helper may be dishonest ---- */
+static int sch_pdpub(sess_t *s) {
+	int lv = !strcmp(s->scheme, "lvpub");
+	int ng = lv ? 2 : 3;
+	char name[8];
+	switch (s->phase) {
+		case 0:
+			if (lv) log_rc(s, "gen", cp_lvpub_gen(s->b[1], s->g1[0], s->g2[0], s->g2[1], s->gt[0]));
+			else log_rc(s, "gen", cp_pdpub_gen(s->b[0], s->b[1], s->g1[0], s->g2[0], s->g2[1], s->gt[0]));
+			g1_rand(s->g1[1]); g2_rand(s->g2[2]);		/* the pairing to compute: e(P, Q) */
+			return 1;
+		case 1:
+			if (lv) log_rc(s, "ask", cp_lvpub_ask(s->b[0], s->g1[2], s->g2[3], s->g1[1], s->g2[2], s->b[1], s->g1[0], s->g2[0], s->g2[1]));
+			else log_rc(s, "ask", cp_pdpub_ask(s->g1[2], s->g2[3], s->g1[1], s->g2[2], s->b[0], s->b[1], s->g1[0], s->g2[0], s->g2[1]));
+			return 1;
+		case 2:
+			/* helper */
+			if (lv) log_rc(s, "ans", cp_lvpub_ans(s->gt + 1, s->g1[1], s->g2[2], s->g1[2], s->g2[1], s->g2[3]));
+			else log_rc(s, "ans", cp_pdpub_ans(s->gt + 1, s->g1[1], s->g2[2], s->g1[2], s->g2[1], s->g2[3]));
+			return 1;
+		case 3: {
+			int ok = 1;
+			for (int i = 0; i < ng; i++) {
+				snprintf(name, sizeof(name), "g%d", i);
+				ok &= xmit_gt(s, name, s->gt[5 + i], s->gt[1 + i], 0);
+			}
+			s->flag[0] = ok;
+			return 1;
+		}
+		case 4:
+			if (s->flag[0]) {
+				int v = lv ? cp_lvpub_ver(s->gt[4], (const gt_t *)(s->gt + 5), s->b[0], s->gt[0])
+						: cp_pdpub_ver(s->gt[4], (const gt_t *)(s->gt + 5), s->b[0], s->gt[0]);
+				log_ver(s, "ver", v == 1);
+				if (v == 1) {
+					pc_map(s->gt[9], s->g1[1], s->g2[2]);
+					tr_printf("OUT %d match v=%02x\n", s->sid, gt_cmp(s->gt[4], s->gt[9]) == RLC_EQ ? 1 : 0);
+				}
+			} else tr_printf("VER %d ver decode-failed\n", s->sid);
+			return 0;
+	}
+	return 0;
+}
+
+/* ---- delegated pairing with private inputs: pdprv / lvprv ---- */
+static int sch_pdprv(sess_t *s) {
+	int lv = !strcmp(s->scheme, "lvprv");
+	char name[8];
+	/* c b[0], r[3] b[1..3], u1[2] g1[0..1], u2[2] g2[0..1], v2[4] g2[2..5], e[2] gt[0..1]; P g1[2], Q g2[6];
+	 * v1[3] g1[3..5], w2[4] g2[6..9]?  -> keep Q in g2[9] and w2 in g2[5..8] after v2 moves: use separate ranges */
+	switch (s->phase) {
+		case 0:
+			if (lv) log_rc(s, "gen", cp_lvprv_gen(s->b[0], s->b + 1, s->g1, s->g2, s->g2 + 2, s->gt));
+			else log_rc(s, "gen", cp_pdprv_gen(s->b[0], s->b + 1, s->g1, s->g2, s->g2 + 2, s->gt));
+			g1_rand(s->g1[2]); g2_rand(s->g2[9]);
+			return 1;
+		case 1: {
+			/* w2[4] needs four G2 slots: the gt array is not used for them, so borrow a second session-local array */
+			static g2_t w2[NSESS][4];
+			static int w2_ready = 0;
+			if (!w2_ready) { for (int a = 0; a < NSESS; a++) { for (int b = 0; b < 4; b++) { g2_null(w2[a][b]); g2_new(w2[a][b]); } } w2_ready = 1; }
+			if (lv) log_rc(s, "ask", cp_lvprv_ask(s->g1 + 3, w2[s->sid], s->g1[2], s->g2[9], s->b[0], (const bn_t *)(s->b + 1), (const g1_t *)s->g1, (const g2_t *)s->g2, (const g2_t *)(s->g2 + 2)));
+			else log_rc(s, "ask", cp_pdprv_ask(s->g1 + 3, w2[s->sid], s->g1[2], s->g2[9], s->b[0], (const bn_t *)(s->b + 1), (const g1_t *)s->g1, (const g2_t *)s->g2, (const g2_t *)(s->g2 + 2)));
+			/* helper answers at once in the next phase from the same arrays */
+			if (lv) log_rc(s, "ans", cp_lvprv_ans(s->gt + 2, (const g1_t *)(s->g1 + 3), (const g2_t *)w2[s->sid]));
+			else log_rc(s, "ans", cp_pdprv_ans(s->gt + 2, (const g1_t *)(s->g1 + 3), (const g2_t *)w2[s->sid]));
+			return 1;
+		}
+		case 2: {
+			int ok = 1;
+			for (int i = 0; i < 4; i++) {
+				snprintf(name, sizeof(name), "g%d", i);
+				gt_copy(s->gt[8], s->gt[2 + i]);
+				ok &= xmit_gt(s, name, s->gt[2 + i], s->gt[8], 0);
+			}
+			s->flag[0] = ok;
+			return 1;
+		}
+		case 3:
+			if (s->flag[0]) {
+				int v = lv ? cp_lvprv_ver(s->gt[7], (const gt_t *)(s->gt + 2), s->b[0], (const gt_t *)s->gt)
+						: cp_pdprv_ver(s->gt[7], (const gt_t *)(s->gt + 2), s->b[0], (const gt_t *)s->gt);
+				log_ver(s, "ver", v == 1);
+				if (v == 1) {
+					pc_map(s->gt[9], s->g1[2], s->g2[9]);
+					tr_printf("OUT %d match v=%02x\n", s->sid, gt_cmp(s->gt[7], s->gt[9]) == RLC_EQ ? 1 : 0);
+				}
+			} else tr_printf("VER %d ver decode-failed\n", s->sid);
+			return 0;
+	}
+	return 0;
+}
+
+/* ---- pairing-based PSI: client set b[0..m-1], server set b[8..8+n-1], overlap from opt ---- */
+static int sch_pbpsi(sess_t *s) {
+	size_t m = (size_t)(s->opt[4] % 5), n = (size_t)(s->opt[5] % 5);
+	size_t ov = (size_t)(s->opt[6] % 5);
+	static g2_t ss2[NSESS][6], dd[NSESS][6];
+	static gt_t tt[NSESS][5];
+	static g1_t uu[NSESS][5];
+	static int ready = 0;
+	if (!ready) {
+		for (int a = 0; a < NSESS; a++) {
+			for (int b = 0; b < 6; b++) { g2_null(ss2[a][b]); g2_new(ss2[a][b]); g2_null(dd[a][b]); g2_new(dd[a][b]); }
+			for (int b = 0; b < 5; b++) { gt_null(tt[a][b]); gt_new(tt[a][b]); g1_null(uu[a][b]); g1_new(uu[a][b]); }
+		}
+		ready = 1;
+	}
+	if (ov > m) ov = m;
+	if (ov > n) ov = n;
+	switch (s->phase) {
+		case 0:
+			for (size_t i = 0; i < m; i++) { bn_rand_mod(s->b[i], ord); }
+			for (size_t i = 0; i < n; i++) { if (i < ov) bn_copy(s->b[8 + i], s->b[i]); else bn_rand_mod(s->b[8 + i], ord); }
+			tr_printf("SETS %d m=%zu n=%zu ov=%zu\n", s->sid, m, n, ov);
+			log_rc(s, "gen", cp_pbpsi_gen(s->b[20], s->g1[0], ss2[s->sid], m));
+			return 1;
+		case 1: log_rc(s, "ask", cp_pbpsi_ask(dd[s->sid], s->b[21], (const bn_t *)s->b, (const g2_t *)ss2[s->sid], m)); return 1;
+		case 2: log_rc(s, "ans", cp_pbpsi_ans(tt[s->sid], uu[s->sid], s->g1[0], dd[s->sid][0], (const bn_t *)(s->b + 8), n)); return 1;
+		case 3: {
+			size_t len = 0;
+			bn_t z[5];
+			for (int i = 0; i < 5; i++) { bn_null(z[i]); bn_new(z[i]); }
+			int rc = cp_pbpsi_int(z, &len, (const g2_t *)dd[s->sid], (const bn_t *)s->b, m, (const gt_t *)tt[s->sid], (const g1_t *)uu[s->sid], n);
+			log_rc(s, "int", rc);
+			if (rc == RLC_OK) {
+				/* which client elements came out */
+				tr_printf("OUT %d inter v=", s->sid);
+				int mask = 0;
+				for (size_t j = 0; j < len; j++) { for (size_t i = 0; i < m; i++) { if (bn_cmp(z[j], s->b[i]) == RLC_EQ) mask |= 1 << i; } }
+				tr_printf("%02x\n", mask);
+				tr_printf("OUT %d interlen v=%02zx\n", s->sid, len);
+			}
+			for (int i = 0; i < 5; i++) { bn_free(z[i]); }
+			return 0;
+		}
+	}
+	return 0;
+}
+
+/* ---- Pedersen commitment: commit, later open; homomorphic combination of two commitments ---- */
+static int sch_ped(sess_t *s) {
+	switch (s->phase) {
+		case 0:
+			ec_rand(s->e[0]);										/* second generator h */
+			bn_rand_mod(s->b[0], ord); bn_rand_mod(s->b[1], ord);	/* r, x */
+			bn_rand_mod(s->b[2], ord); bn_rand_mod(s->b[3], ord);	/* r', x' */
+			log_rc(s, "com", cp_ped_com(s->e[1], s->e[0], s->b[0], s->b[1]));
+			log_rc(s, "com2", cp_ped_com(s->e[2], s->e[0], s->b[2], s->b[3]));
+			return 1;
+		case 1:
+			s->flag[0] = xmit_ec(s, "c", s->e[5], s->e[1], (int)s->opt[1]) & xmit_ec(s, "c2", s->e[6], s->e[2], (int)s->opt[1]);
+			return 1;
+		case 2:
+			s->flag[1] = xmit_bn(s, "r", s->b[12], s->b[0], 0) & xmit_bn(s, "x", s->b[13], s->b[1], 0);
+			return 1;
+		case 3:
+			if (s->flag[0] && s->flag[1]) {
+				/* verifier recomputes */
+				int rc = cp_ped_com(s->e[7], s->e[0], s->b[12], s->b[13]);
+				log_rc(s, "recom", rc);
+				if (rc == RLC_OK) log_ver(s, "open", ec_cmp(s->e[7], s->e[5]) == RLC_EQ);
+				/* homomorphic: c + c2 opens to (r + r', x + x') */
+				bn_add(s->b[14], s->b[0], s->b[2]); bn_mod(s->b[14], s->b[14], ord);
+				bn_add(s->b[15], s->b[1], s->b[3]); bn_mod(s->b[15], s->b[15], ord);
+				if (!bn_is_zero(s->b[15])) {
+					rc = cp_ped_com(s->e[8], s->e[0], s->b[14], s->b[15]);
+					ec_add(s->e[9], s->e[1], s->e[2]); ec_norm(s->e[9], s->e[9]);
+					if (rc == RLC_OK) log_ver(s, "homo", ec_cmp(s->e[8], s->e[9]) == RLC_EQ);
+				}
+			} else tr_printf("VER %d open decode-failed\n", s->sid);
+			return 0;
+	}
+	return 0;
+}
+
 #define EXTRA_SCHEMES \
 	{ "bbs", sch_bbs, 1, 0, 0 }, { "zss", sch_zss, 1, 0, 0 }, { "cls", sch_cls, 1, 0, 0 }, { "cli", sch_cli, 1, 0, 0 }, \
 	{ "clb", sch_clb, 1, 0, 0 }, { "pss", sch_pss, 1, 0, 0 }, { "psb", sch_psb, 1, 0, 0 }, { "vbnn", sch_vbnn, 0, 0, 0 }, \
 	{ "pokdl", sch_pokdl, 0, 0, 0 }, { "sokdl", sch_pokdl, 0, 0, 0 }, { "pokor", sch_pokor, 0, 0, 0 }, { "sokor", sch_pokor, 0, 0, 0 }, \
-	{ "ers", sch_ers, 0, 0, 0 }, { "mklhs", sch_mklhs, 1, 0, 0 },
+	{ "ers", sch_ers, 0, 0, 0 }, { "mklhs", sch_mklhs, 1, 0, 0 }, \
+	{ "ghpe", sch_ghpe, 0, 0, 0 }, { "bdpe", sch_bdpe, 0, 0, 0 }, { "rabin", sch_rabin, 0, 0, 0 }, { "ibe", sch_ibe, 1, 0, 0 }, \
+	{ "bgn", sch_bgn, 1, 0, 0 }, { "sokaka", sch_sokaka, 1, 0, 0 }, { "mt", sch_mt, 0, 0, 0 }, { "pdpub", sch_pdpub, 1, 0, 0 }, \
+	{ "lvpub", sch_pdpub, 1, 0, 0 }, { "pdprv", sch_pdprv, 1, 0, 0 }, { "lvprv", sch_pdprv, 1, 0, 0 }, { "pbpsi", sch_pbpsi, 1, 0, 0 }, \
+	{ "ped", sch_ped, 0, 0, 0 },
